@@ -17,6 +17,7 @@ use simplicity::dag::{DagLike, InternalSharing};
 use simplicity::types;
 use simplicity::Cmr;
 use std::collections::HashMap;
+use std::sync::Arc;
 
 pub const RULE: &str = "type-directed plans with all node kinds (jets, words, fail entropy, assertions with hidden roots, disconnect with and without branch, witnesses), their roots on every node kind of the library and under every conversion; non-trivial = at least 5 nodes; distinct by plan";
 
@@ -47,6 +48,46 @@ fn committed_text(plan: &Plan, i: usize, memo: &mut HashMap<usize, Option<String
     let s = s.filter(|s| s.len() < 50_000);
     memo.insert(i, s.clone());
     s
+}
+
+/// the plan rebuilt through the `Hiding` wrapper, the sub-expressions in `hide` replaced by hidden
+/// nodes carrying their roots; returns the root of the result (a node or a hidden root)
+fn hiding_root(plan: &Plan, hide: &[bool]) -> Result<Cmr, String> {
+    use simplicity::node::{ConstructNode, CoreConstructible, DisconnectConstructible, Hiding, WitnessConstructible};
+    use simplicity::{FailEntropy, HasCmr};
+    type N<'b> = Arc<ConstructNode<'b>>;
+    type H<'b> = Hiding<'b, N<'b>>;
+    types::Context::with_context(|tctx| {
+        let mut built: Vec<Option<H>> = vec![None; plan.nodes.len()];
+        for i in plan.reachable() {
+            let g = |c: usize| built[c].as_ref().expect("children first");
+            let e = |e: simplicity::types::Error| e.to_string();
+            let node: H = match &plan.nodes[i] {
+                PNode::Iden => H::iden(&tctx),
+                PNode::Unit => H::unit(&tctx),
+                PNode::InjL(c) => H::injl(g(*c)),
+                PNode::InjR(c) => H::injr(g(*c)),
+                PNode::Take(c) => H::take(g(*c)),
+                PNode::Drop(c) => H::drop_(g(*c)),
+                PNode::Comp(a, b) => H::comp(g(*a), g(*b)).map_err(e)?,
+                PNode::Case(a, b) => H::case(g(*a), g(*b)).map_err(e)?,
+                PNode::Pair(a, b) => H::pair(g(*a), g(*b)).map_err(e)?,
+                PNode::AssertL(a, h) => H::assertl(g(*a), Cmr::from_byte_array(*h)).map_err(e)?,
+                PNode::AssertR(h, b) => H::assertr(Cmr::from_byte_array(*h), g(*b)).map_err(e)?,
+                PNode::Disconnect(a, b) => {
+                    // the branch is not committed to: give the wrapper the plain node, when there is one
+                    let right: Option<N> = b.and_then(|b| g(b).as_node().cloned());
+                    H::disconnect(g(*a), &right).map_err(e)?
+                }
+                PNode::Witness => H::witness(&tctx, None::<simplicity::Value>),
+                PNode::Fail(en) => H::fail(&tctx, FailEntropy::from_byte_array(*en)),
+                PNode::Word(n, bits) => H::const_word(&tctx, gen::word_of_bits(*n, bits)),
+                PNode::Jet(j) => H::jet(&tctx, j),
+            };
+            built[i] = Some(if hide[i] { node.hide() } else { node });
+        }
+        Ok(built[plan.root()].as_ref().unwrap().cmr())
+    })
 }
 
 fn one(ctx: &mut Ctx, plan: &Plan, program: bool) -> Option<Cmr> {
@@ -135,6 +176,38 @@ fn one(ctx: &mut Ctx, plan: &Plan, program: bool) -> Option<Cmr> {
         Ok(Err(e)) if e == "skip" => ctx.count("skipped:not-finalizable"),
         Ok(Err(e)) => ctx.fail("root-changes-under-conversion", &line, &e),
         Err(p) => ctx.fail("panic-conversion", &line, &p),
+    }
+    // replacing any set of sub-expressions by hidden nodes carrying their roots keeps the root
+    for round in 0..3u64 {
+        let n = plan.nodes.len();
+        let hide: Vec<bool> = (0..n).map(|i| match round {
+            0 => ctx.rng.below(4) == 0,
+            1 => ctx.rng.below(2) == 0 && i + 1 != n,
+            // the live child of every assertion, and the children of cases
+            _ => plan.nodes.iter().any(|p| match p {
+                PNode::AssertL(c, _) | PNode::AssertR(_, c) => *c == i,
+                PNode::Case(a, b) => (*a == i || *b == i) && ctx.rng.bool(),
+                _ => false,
+            }),
+        }).collect();
+        match catch(|| hiding_root(plan, &hide)) {
+            Ok(Ok(r)) => {
+                ctx.count("reach:hiding-route");
+                if hide.iter().enumerate().any(|(i, h)| *h && matches!(plan.nodes[i], PNode::AssertL(..) | PNode::AssertR(..)) || plan.nodes.iter().any(|p| matches!(p, PNode::AssertL(c, _) | PNode::AssertR(_, c) if *c == i && *h))) {
+                    ctx.count("reach:hiding-under-assertion");
+                }
+                if r != root {
+                    let hs: Vec<String> = hide.iter().enumerate().filter(|(_, h)| **h).map(|(i, _)| i.to_string()).collect();
+                    ctx.fail("root-changes-under-hiding", &line, &format!("hiding nodes [{}] gives root {r}, the program has {root}", hs.join(",")));
+                    break;
+                }
+            }
+            Ok(Err(_)) => ctx.count("hiding-route:type-error"),
+            Err(p) => {
+                ctx.fail("panic-hiding", &line, &p);
+                break;
+            }
+        }
     }
     // the branch of a disconnect is not committed to
     if plan.nodes.iter().any(|n| matches!(n, PNode::Disconnect(_, Some(_)))) {
